@@ -147,6 +147,53 @@ func genBlockwiseXfer(g *gen, repo string) {
 		}
 		contSkips, startSkips = arg("continueSendingMessage"), arg("startSendingMessage")
 	}
+	// F39: the body of the message is tested for nil before it is used.  Two shapes are known; anything else fails.
+	//   pinned:   offSeek, err := sendingMessage.Body().Seek(off, io.SeekStart)                       -> false
+	//   repaired: body := sendingMessage.Body(); if body == nil { …; return nil, false, <error> }; offSeek, err := body.Seek(off, io.SeekStart)   -> true
+	refusesBodylessSending := false
+	{
+		seekAt, bodyAt, nilAt := -1, -1, -1
+		seekRhs := ""
+		for i, st := range csm.Body.List {
+			switch x := st.(type) {
+			case *ast.AssignStmt:
+				if len(x.Lhs) == 2 && len(x.Rhs) == 1 && c04Str(x.Lhs[0]) == "offSeek" && x.Tok == token.DEFINE {
+					seekAt, seekRhs = i, c04Str(x.Rhs[0])
+				}
+				if len(x.Lhs) == 1 && len(x.Rhs) == 1 && c04Str(x.Lhs[0]) == "body" && x.Tok == token.DEFINE && c04Str(x.Rhs[0]) == "sendingMessage.Body()" {
+					bodyAt = i
+				}
+			case *ast.IfStmt:
+				if c04Str(x.Cond) == "body==nil" && x.Init == nil && x.Else == nil && len(x.Body.List) >= 1 {
+					r, ok := x.Body.List[len(x.Body.List)-1].(*ast.ReturnStmt)
+					if !ok || len(r.Results) != 3 || c04Str(r.Results[0]) != "nil" || c04Str(r.Results[1]) != "false" || c04Str(r.Results[2]) == "nil" {
+						fail("createSendingMessage: `if body == nil` does not end with `return nil, false, <error>`")
+					}
+					nilAt = i
+				}
+			}
+		}
+		switch {
+		case seekAt >= 0 && seekRhs == "sendingMessage.Body().Seek(off,io.SeekStart)" && bodyAt < 0 && nilAt < 0:
+			refusesBodylessSending = false
+		case seekAt >= 0 && seekRhs == "body.Seek(off,io.SeekStart)" && bodyAt >= 0 && bodyAt < nilAt && nilAt < seekAt:
+			refusesBodylessSending = true
+		default:
+			fail("createSendingMessage: unexpected shape around the Seek in the body (`%s`, body := at %d, nil test at %d, Seek at %d)", seekRhs, bodyAt, nilAt, seekAt)
+		}
+		// no other use of sendingMessage.Body() may come before the nil test
+		for i, st := range csm.Body.List {
+			if !refusesBodylessSending || i >= nilAt || i == bodyAt {
+				continue
+			}
+			ast.Inspect(st, func(n ast.Node) bool {
+				if c, ok := n.(*ast.CallExpr); ok && c04Str(c) == "sendingMessage.Body()" {
+					fail("createSendingMessage: sendingMessage.Body() is used before it is tested for nil")
+				}
+				return true
+			})
+		}
+	}
 	if !offInit {
 		fail("createSendingMessage: `off := num * szx.Size()` not found")
 	}
@@ -603,6 +650,7 @@ func genBlockwiseXfer(g *gen, repo string) {
 	fmt.Fprintf(&b, "/-- processReceivedMessage: the no-cached-entry-and-no-more shortcut refuses NUM > 0 before `next(w, r)` -/\ndef shortcutNeedsNum0 : Bool := %s\n", c04Bool(shortcutNeedsNum0))
 	fmt.Fprintf(&b, "/-- processReceivedMessage: a POST/PUT without Block1 asking for a Block2 block with NUM > 0 is refused (4.08), not handed to `next` -/\ndef refusesLostContinuation : Bool := %s\n", c04Bool(refusesLostContinuation))
 	fmt.Fprintf(&b, "/-- processReceivedMessage: the response of a POST/PUT is never re-requested from block 0 (the request would go out without its body) -/\ndef refusesBodylessRestart : Bool := %s\n", c04Bool(refusesBodylessRestart))
+	fmt.Fprintf(&b, "/-- createSendingMessage: a message whose Body() is nil (a pending request without body) is refused with an error before the body is used (F39) -/\ndef refusesBodylessSending : Bool := %s\n", c04Bool(refusesBodylessSending))
 	fmt.Fprintf(&b, "/-- processReceivedMessage: a block at offset 0 (re)starts the transfer: held bytes dropped, options and code taken from the block -/\ndef block0Restarts : Bool := %s\n", c04Bool(block0Restarts))
 	fmt.Fprintf(&b, "/-- processReceivedMessage / getCachedReceivedMessage: the per-entry guard is acquired before the cached message is touched and released only by the deferred close function, after `next(w, cachedReceivedMessage)` has returned (no earlier release, no go statement) -/\ndef guardReleasedOnlyAfterNext : Bool := true\n")
 	fmt.Fprintf(&b, "/-- tcp/udp/dtls servers and clients: `createBlockWise` is a function literal that returns `blockwise.New(…)`, i.e. every connection gets its own layer (its own pair of caches) -/\ndef layerPerConnection : Bool := true\n")
